@@ -290,3 +290,86 @@ def payload_blind(e):
             k2 -= 1
         e = e[:k2] + "_" + e[m.end():]
     return re.sub(r"_(\.(?:Ok|Some|Continue)\.0)+", "_", e)
+
+
+def parser_nesting_inherited(chk, F, RULE, guard_prim, consequence):
+    """every CelCompiler created inside a parse function receives its creator's nesting counter before it is used (shared by C01 R01.6 and C19 R19.9)"""
+    import re
+    cc_adt = F.adts.get("rscel::compiler::compiler::CelCompiler")
+    nest_idx = None
+    if cc_adt:
+        # the depth counter is the field of the parser that the guard (enter_nested) writes - whatever it is called
+        en_b = F.body(guard_prim)
+        written = set()
+        for i_, st_ in en_b.stmts():
+            pl_ = st_.get("place", {})
+            if st_.get("k") == "assign" and pl_.get("l") == 1 and pl_.get("p") and pl_["p"][0] == "deref" and len(pl_["p"]) == 2 and isinstance(pl_["p"][1], dict) and "f" in pl_["p"][1]:
+                written.add(pl_["p"][1]["f"])
+        if len(written) == 1:
+            nest_idx = written.pop()
+    if nest_idx is None:
+        chk.bad(RULE, "anchor|CelCompiler.nesting", "the guard (enter_nested) no longer keeps its count in exactly one field of the parser: the depth guard's state is gone", "rscel/src/compiler/compiler.rs")
+    n_created = 0
+    parser_bodies = [b for b in F.bodies.values() if b.path.startswith("rscel::compiler::compiler::CelCompiler::<'l>::parse_") or "::CelCompiler::<'l>::parse_" in b.path]
+    for b in parser_bodies:
+        if nest_idx is None:
+            break
+        for blk, t in b.calls():
+            dest = t.get("dest") or t.get("destination") or {}
+            dl = dest.get("l") if isinstance(dest, dict) else None
+            if dl is None or dest.get("p"):
+                continue
+            ty = b.local_ty(dl) or ""
+            if not re.match(r"^rscel::compiler::compiler::CelCompiler<", ty):
+                continue
+            n_created += 1
+            key = "%s|%s" % (lib.short(b.path), lib.short(lib.callee_of(t)[1] or "?"))
+            # field writes new.nesting = <copy of (*self).nesting>
+            inherit_blocks = []
+            for i, st in b.stmts():
+                if st.get("k") != "assign":
+                    continue
+                pl = st["place"]
+                if pl.get("l") == dl and pl.get("p") == [{"f": nest_idx}]:
+                    src = st["rv"].get("op", {}) if st["rv"].get("k") == "use" else {}
+                    src = src.get("move") or src.get("copy") or {}
+                    # follow one temporary
+                    seen = 0
+                    while src and not src.get("p") and seen < 4:
+                        seen += 1
+                        defs = [s2 for _, s2 in b.stmts() if s2.get("k") == "assign" and s2["place"] == {"l": src.get("l")}]
+                        if len(defs) != 1 or defs[0]["rv"].get("k") != "use":
+                            break
+                        o2 = defs[0]["rv"]["op"]
+                        src = o2.get("move") or o2.get("copy") or {}
+                    if src.get("l") == 1 and src.get("p") == ["deref", {"f": nest_idx}]:
+                        inherit_blocks.append(i)
+            # every call that takes a reference to the new parser must be dominated by (or sit in the same block after) such a write
+            users = []
+            for i, st in b.stmts():
+                if st.get("k") == "assign" and st["rv"].get("k") == "ref" and st["rv"]["place"].get("l") == dl:
+                    users.append(i)
+            bad_users = [u for u in users if not any(g == u or b.dominates(g, u) for g in inherit_blocks)]
+            def from_self_nesting(op):
+                src = (op.get("move") or op.get("copy") or {}) if isinstance(op, dict) else {}
+                for _ in range(4):
+                    if src.get("l") == 1 and src.get("p") == ["deref", {"f": nest_idx}]:
+                        return True
+                    if not src or src.get("p"):
+                        return False
+                    defs = [s2 for _, s2 in b.stmts() if s2.get("k") == "assign" and s2["place"] == {"l": src.get("l")}]
+                    if len(defs) != 1 or defs[0]["rv"].get("k") != "use":
+                        return False
+                    o2 = defs[0]["rv"]["op"]
+                    src = o2.get("move") or o2.get("copy") or {}
+                return False
+            if any(from_self_nesting(a) for a in t.get("args", [])):
+                chk.ok(RULE, key, "the creator's counter is passed to the constructor")
+            elif not users:
+                chk.ok(RULE, key, "created but never used")
+            elif bad_users or not inherit_blocks:
+                chk.bad(RULE, key, "%s creates a new parser (its nesting counter starts at 0) and uses it without first copying its own counter into it: " % lib.short(b.path) + consequence,
+                        "%s:%d" % (t["file"], t["line"]))
+            else:
+                chk.ok(RULE, key, "nesting inherited before first use")
+    chk.floor(RULE, "parsers created inside parse functions (format-string segments)", n_created, 1)
